@@ -53,10 +53,28 @@ def materialised_bool(cfg, D):
     out = {True: [], False: [], 'expr': []}
     R = set()
     for (bi, i, st) in ds:
-        if i == 'call':
-            return None
         if bi == D:
             return None
+        if i == 'call':
+            # `a && f(x)`: the last conjunct is a call whose result is stored into the flag
+            out['expr'].append((bi, st))
+            R.add(bi)
+            x = st.d.get('t')
+            ok_chain = False
+            for _ in range(6):
+                if x is None:
+                    break
+                if x == D:
+                    ok_chain = True
+                    break
+                R.add(x)
+                tx = body.blocks[x].term
+                if tx.k != 'goto':
+                    break
+                x = tx.d['t']
+            if not ok_chain:
+                return None
+            continue
         if st.rv['k'] == 'use' and st.rv_operands() and st.rv_operands()[0].is_const:
             out[bool(st.rv_operands()[0].d.get('v'))].append(bi)
         elif st.rv['k'] in ('bin', 'un', 'use'):
@@ -106,7 +124,10 @@ def conditions(cfg, E, block, _depth=0):
                     # only the expression store can have produced this value: it holds, together with what is known there
                     (xb, xs) = mb['expr'][0]
                     out.extend(conditions(cfg, E, xb, _depth + 1))
-                    out.append((E.rvalue(xs.rv), tv, xb))
+                    if hasattr(xs, 'rv') and xs.k == 'assign':
+                        out.append((E.rvalue(xs.rv), tv, xb))
+                    else:
+                        out.append((('call', xs.callee.path, tuple(E.operand(a) for a in xs.args)), tv, xb))
         e = E.switch_cond(cfg.body.blocks[D])
         if v is None:
             if allvals == [0]:
